@@ -112,6 +112,58 @@ Theorem C03_same_brownian_increments : forall cf cc dts w,
 Proof. exact same_brownian. Qed.
 
 (* ---------------- the n-dimensional (Levy copula) coupling ---------------- *)
+(* positive structural theorems about the faithful 2-d model Model/CouplingNd.v of __coupling_state; they hold of the current code.
+   The n-d code always uses the arithmetic tuple-middle (amid). *)
+Theorem C03_copy_rule_nd : forall mid mass2 marg xs o i1 i2 u, (i1 mod 2 = 0)%Z -> (i2 mod 2 = 0)%Z ->
+  coupling_state2 mid mass2 marg xs o i1 i2 u
+  = Some (nthq xs (Z.to_nat (Z.of_nat o + i1)), nthq xs (Z.to_nat (Z.of_nat o + i2))).
+Proof. exact copy_rule_2d. Qed.
+Theorem C03_adjacency_nd : forall mid mass2 marg xs o i1 i2 u v1 v2,
+  coupling_state2 mid mass2 marg xs o i1 i2 u = Some (v1, v2) ->
+  let p1 := Z.to_nat (Z.of_nat o + i1) in let p2 := Z.to_nat (Z.of_nat o + i2) in
+  ((i1 mod 2 = 0)%Z -> v1 = nthq xs p1) /\ ((i1 mod 2 <> 0)%Z -> v1 = nthq xs (p1 - 1) \/ v1 = nthq xs (p1 + 1))
+  /\ ((i2 mod 2 = 0)%Z -> v2 = nthq xs p2) /\ ((i2 mod 2 <> 0)%Z -> v2 = nthq xs (p2 - 1) \/ v2 = nthq xs (p2 + 1)).
+Proof. exact adjacency_2d. Qed.
+
+Section NdMeasure.
+  Variable marg : nat -> Q -> Q -> Q.      (* model.mass(a, b, [k]): margin over axis k *)
+  Hypothesis marg_add : forall k a b c, a <= b -> b <= c -> (c < 0 \/ 0 < a) -> marg k a c == marg k a b + marg k b c.
+  Hypothesis marg_pos : forall k a b, a <= b -> (b < 0 \/ 0 < a) -> 0 <= marg k a b.
+  Hypothesis marg_proper : forall k a a' b b', a == a' -> b == b' -> marg k a b == marg k a' b'.
+  Variable mass2 : Q * Q -> Q * Q -> Q.    (* model.mass(a, b): joint rectangle mass *)
+  Hypothesis mass2_add1 : forall a1 b1 c1 y1 y2, a1 <= b1 -> b1 <= c1 -> avoids (a1, y1) (c1, y2) ->
+    mass2 (a1, y1) (c1, y2) == mass2 (a1, y1) (b1, y2) + mass2 (b1, y1) (c1, y2).
+  Hypothesis mass2_add2 : forall x1 x2 a2 b2 c2, a2 <= b2 -> b2 <= c2 -> avoids (x1, a2) (x2, c2) ->
+    mass2 (x1, a2) (x2, c2) == mass2 (x1, a2) (x2, b2) + mass2 (x1, b2) (x2, c2).
+  Hypothesis mass2_pos : forall a b, fst a <= fst b -> snd a <= snd b -> avoids a b -> 0 <= mass2 a b.
+  Hypothesis mass2_proper : forall a1 a2 b1 b2 a1' a2' b1' b2', a1 == a1' -> a2 == a2' -> b1 == b1' -> b2 == b2' ->
+    mass2 (a1, a2) (b1, b2) == mass2 (a1', a2') (b1', b2').
+
+  (* the corner probabilities are a probability law whenever the mass in the denominator is not 0: one odd axis ... *)
+  Theorem C03_corner1_is_law : forall k xs p pl pr, incr xs -> (1 <= p)%nat -> (p + 1 < length xs)%nat ->
+    (cell_hi amid xs p < 0 \/ 0 < cell_lo amid xs p) ->
+    corner1 amid marg k xs p = Some (pl, pr) -> 0 <= pl /\ 0 <= pr /\ pl + pr == 1.
+  Proof. intros k xs p pl pr. apply (corner1_is_law marg); assumption. Qed.
+  (* ... and both axes odd (joint quarter masses) *)
+  Theorem C03_corner2_is_law : forall xs p1 p2 cs, incr xs -> (1 <= p1)%nat -> (p1 + 1 < length xs)%nat ->
+    (1 <= p2)%nat -> (p2 + 1 < length xs)%nat -> (cell_hi amid xs p1 < 0 \/ 0 < cell_lo amid xs p1) ->
+    corner2 amid mass2 xs p1 p2 = Some cs ->
+    Forall (fun c => 0 <= snd c) cs /\ qsum (map (fun c => snd c) cs) == 1.
+  Proof. intros xs p1 p2 cs. apply (corner2_is_law mass2); assumption. Qed.
+End NdMeasure.
+
+(* the level machine of CouplingProcessLevyCopula: after any number n+1 of next_level calls the coarse diffusion matrix
+   (_diffusion_matrix_2h) and the frozen coarse drift vector are the fine ones of level n = those of the chain on the grid
+   refined n times *)
+Theorem C03_frozen_nd : forall mid dmat_of driftv_of x0 n g, length x0 = length (driftv_of (refine_n mid n g)) ->
+  let s := run_levels_nd mid dmat_of driftv_of x0 (S n) g in
+  cn_level s = S n /\ cn_grid s = refine_n mid (S n) g
+  /\ cn_dm_coarse s = Some (dmat_of (refine_n mid n g))
+  /\ cn_dm_fine s = dmat_of (refine_n mid (S n) g)
+  /\ cn_drift_fine s = driftv_of (refine_n mid (S n) g)
+  /\ (exists d, cn_drift_coarse s = Some d /\ Forall2 Qeq d (driftv_of (refine_n mid n g))).
+Proof. exact frozen_nd. Qed.
+
 (* F-C03-1: the faithful model of couplinglevycopula.py:__coupling_state takes the corner probabilities of the odd axes
    from the MARGIN of the (untruncated) measure over those axes; there is a 2-d measure (an explicit additive table of
    cell masses) and a grid on which sum_fine rate * P(fine -> y) differs from the coarse rate of y *)
@@ -148,5 +200,11 @@ Print Assumptions C03_telescoping_1d.
 Print Assumptions C03_sent_to_origin.
 Print Assumptions C03_drift_diffusion_frozen.
 Print Assumptions C03_same_brownian_increments.
+Print Assumptions C03_copy_rule_nd.
+Print Assumptions C03_adjacency_nd.
+Print Assumptions C03_corner1_is_law.
+Print Assumptions C03_corner2_is_law.
+Print Assumptions C03_frozen_nd.
 Print Assumptions C03_telescoping_nd_refuted.
 Print Assumptions C03_telescoping_nd_joint_instance.
+Print Assumptions C03_nonvacuous.
